@@ -12,10 +12,16 @@ package eventlogger
 //@ type Broker guarded_by lock: nodes, graphs
 //@ type Broker callback_free lock
 //@ type Broker exempt clock: StopTimeAt is documented test-only and not in any property's call list
-//@ type graph guarded_by Broker.lock: successThreshold, successThresholdSinks
+//@ type graph guarded_by thresholdLock: successThreshold, successThresholdSinks
 //@ type nodeUsage guarded_by Broker.lock: node, referenceCount, registrationPolicy
 
 //@ pure wfGraphs(b *Broker) bool = b.graphs != nil && (forall t1 EventType, t2 EventType :: (t1 in b.graphs) && (t2 in b.graphs) && t1 != t2 ==> b.graphs[t1] != b.graphs[t2]) && (forall t3 EventType :: (t3 in b.graphs) ==> b.graphs[t3] != nil && allocated(b.graphs[t3]))
+
+//@ func (*graph).thresholds() (successThreshold, successThresholdSinks)
+//@   requires g != nil && held(g.thresholdLock) == 0
+//@   assigns held, lockacq
+//@   ensures C02/reads-both-under-lock: successThreshold == g.successThreshold && successThresholdSinks == g.successThresholdSinks
+//@   ensures unchanged("held") && onlychanged("lockacq", g.thresholdLock)
 
 //@ func (*Broker).SetSuccessThreshold(t, successThreshold) (err)
 //@   requires b != nil && noLocksHeld() && wfGraphs(b)
@@ -31,6 +37,23 @@ package eventlogger
 //@ func (*Broker).SuccessThreshold(t) (n, ok)
 //@   requires b != nil && noLocksHeld() && wfGraphs(b)
 //@   ensures C02/reads-back: ok == (t in b.graphs) && (ok ==> n == b.graphs[t].successThreshold) && (!ok ==> n == 0)
+//@   ensures unlocked: noLocksHeld()
+//@   ensures C04/single-critical-section: acquisitions(b.lock) <= old(acquisitions(b.lock)) + 1
+
+//@ func (*Broker).SetSuccessThresholdSinks(t, successThresholdSinks) (err)
+//@   requires b != nil && noLocksHeld() && wfGraphs(b)
+//@   ensures C02/reject: (t == "" || successThresholdSinks < 0) ==> err != nil && (forall g *graph :: old(allocated(g)) ==> g.successThresholdSinks == old(g.successThresholdSinks)) && (forall u EventType :: (u in b.graphs) == old(u in b.graphs))
+//@   ensures C02/set: !(t == "" || successThresholdSinks < 0) ==> err == nil && (t in b.graphs) && b.graphs[t].successThresholdSinks == successThresholdSinks
+//@   ensures C02/other-types-untouched: forall u EventType :: u != t && old(u in b.graphs) ==> (u in b.graphs) && b.graphs[u] == old(b.graphs[u]) && b.graphs[u].successThresholdSinks == old(b.graphs[u].successThresholdSinks)
+//@   ensures C02/other-threshold-untouched: forall g *graph :: old(allocated(g)) ==> g.successThreshold == old(g.successThreshold)
+//@   ensures C02/fresh-graph-zero-threshold: !(t == "" || successThresholdSinks < 0) && !old(t in b.graphs) ==> b.graphs[t].successThreshold == 0
+//@   ensures wf: wfGraphs(b)
+//@   ensures unlocked: noLocksHeld()
+//@   ensures C04/single-critical-section: acquisitions(b.lock) <= old(acquisitions(b.lock)) + 1
+
+//@ func (*Broker).SuccessThresholdSinks(t) (n, ok)
+//@   requires b != nil && noLocksHeld() && wfGraphs(b)
+//@   ensures C02/reads-back: ok == (t in b.graphs) && (ok ==> n == b.graphs[t].successThresholdSinks) && (!ok ==> n == 0)
 //@   ensures unlocked: noLocksHeld()
 //@   ensures C04/single-critical-section: acquisitions(b.lock) <= old(acquisitions(b.lock)) + 1
 
@@ -272,7 +295,7 @@ package eventlogger
 //@   rangeloop 1 invariant forall i int :: old(ev_n) <= i && i < ev_n ==> ev_kind(i) != "close" && ev_kind(i) != "wgwait" && ev_kind(i) != "send-bare"
 
 //@ func (*graph).process(ctx, e) (status, err)
-//@   requires g != nil
+//@   requires g != nil && noLocksHeld()
 //@   requires C12/callback-free: cbfree()
 //@   assigns ev, ctxdone, elem:error, elem:NodeID, box:chan Status, box:*graph, box:context.Context, box:*Event, box:sync.WaitGroup
 //@   sends statusChan: statusShape(msg)
@@ -307,11 +330,11 @@ package eventlogger
 //@   requires isChain(root) && chainNodesNonNil(root) && 0 <= k && k < root.clen && node == root.chain[k]
 //@   requires C12/callback-free: cbfree()
 //@   assigns ev, ctxdone
-//@   ensures C20/nil-means-rest-of-chain-reopened: err == nil ==> (forall j int :: k <= j && j < root.clen ==> callsOn("Node.Reopen", root.chain[j].node) > old(callsOn("Node.Reopen", root.chain[j].node)))
+//@   ensures C20/nil-means-rest-of-chain-reopened: err == nil ==> (forall j int :: k <= j && j < root.clen ==> newCallsOn("Node.Reopen", root.chain[j].node) > 0)
 //@   ensures C20/error-is-a-node-failure: err != nil ==> (exists i int :: old(ev_n) <= i && i < ev_n && ev_kind(i) == "call:eventlogger.Node.Reopen" && ev_a(i, 5) == tagof(err) && ev_a(i, 6) == valof(err))
 //@   ensures C20/failure-is-reported: forall i int :: old(ev_n) <= i && i < ev_n && ev_kind(i) == "call:eventlogger.Node.Reopen" && ev_a(i, 5) != 0 ==> err != nil && tagof(err) == ev_a(i, 5) && valof(err) == ev_a(i, 6)
 //@   ghost call (*graph).doReopen#1 with root = root, k = k + 1
-//@   loop 1 invariant (forall i int :: old(ev_n) <= i && i < ev_n && ev_kind(i) == "call:eventlogger.Node.Reopen" ==> ev_a(i, 5) == 0) && callsOn("Node.Reopen", root.chain[k].node) > old(callsOn("Node.Reopen", root.chain[k].node)) && (rangeindex >= 0 ==> (forall j int :: k < j && j < root.clen ==> callsOn("Node.Reopen", root.chain[j].node) > old(callsOn("Node.Reopen", root.chain[j].node))))
+//@   loop 1 invariant (forall i int :: old(ev_n) <= i && i < ev_n && ev_kind(i) == "call:eventlogger.Node.Reopen" ==> ev_a(i, 5) == 0) && newCallsOn("Node.Reopen", root.chain[k].node) > 0 && (rangeindex >= 0 ==> (forall j int :: k < j && j < root.clen ==> newCallsOn("Node.Reopen", root.chain[j].node) > 0))
 
 //@ pure carries(err error, t int, v int) bool = (tagof(err) == t && valof(err) == v) || wraps(err, errOf(t, v))
 
@@ -319,20 +342,31 @@ package eventlogger
 //@   requires g != nil && wfPipelines(g)
 //@   requires C12/callback-free: cbfree()
 //@   assigns ev, ctxdone, multierror, box:*multierror.Error
-//@   ensures C20/nil-means-every-pipeline-reopened: err == nil ==> (forall p PipelineID, j int :: (p in view(g.roots.m)) && 0 <= j && j < view(g.roots.m)[p].rootNode.clen ==> callsOn("Node.Reopen", view(g.roots.m)[p].rootNode.chain[j].node) > old(callsOn("Node.Reopen", view(g.roots.m)[p].rootNode.chain[j].node)))
+//@   ensures C20/nil-means-every-pipeline-reopened: err == nil ==> (forall p PipelineID, j int :: (p in view(g.roots.m)) && 0 <= j && j < view(g.roots.m)[p].rootNode.clen ==> newCallsOn("Node.Reopen", view(g.roots.m)[p].rootNode.chain[j].node) > 0)
 //@   ensures C20/failure-is-reported-and-carried: forall i int :: old(ev_n) <= i && i < ev_n && ev_kind(i) == "call:eventlogger.Node.Reopen" && ev_a(i, 5) != 0 ==> err != nil && carries(err, ev_a(i, 5), ev_a(i, 6))
 //@   ghost call (*graph).doReopen#1 with root = pipeline.rootNode, k = 0
-//@   rangeloop 1 invariant errors == nil ==> (forall p PipelineID, j int :: seen(1, p) && 0 <= j && j < view(g.roots.m)[p].rootNode.clen ==> callsOn("Node.Reopen", view(g.roots.m)[p].rootNode.chain[j].node) > old(callsOn("Node.Reopen", view(g.roots.m)[p].rootNode.chain[j].node)))
+//@   rangeloop 1 invariant errors == nil ==> (forall p PipelineID, j int :: seen(1, p) && 0 <= j && j < view(g.roots.m)[p].rootNode.clen ==> newCallsOn("Node.Reopen", view(g.roots.m)[p].rootNode.chain[j].node) > 0)
 //@   rangeloop 1 invariant forall i int :: old(ev_n) <= i && i < ev_n && ev_kind(i) == "call:eventlogger.Node.Reopen" && ev_a(i, 5) != 0 ==> errors != nil && wraps(asIface(errors), errOf(ev_a(i, 5), ev_a(i, 6)))
 //@   rangeloop 1 invariant errors != nil ==> held_errors(errors) > 0
+
+// ghost witnesses for Broker.Reopen's snapshot: position of each type's graph in the slice, and back
+//@ type Broker ghostfield gpos map[EventType]int
+//@ type Broker ghostfield gtyp map[int]EventType
 
 //@ pure wfAllPipelines(b *Broker) bool = forall t EventType :: (t in b.graphs) ==> wfPipelines(b.graphs[t])
 
 //@ func (*Broker).Reopen(ctx) (err)
 //@   requires b != nil && noLocksHeld() && wfGraphs(b) && wfAllPipelines(b)
-//@   ensures C20/nil-means-every-node-reopened: err == nil ==> (forall t EventType, p PipelineID, j int :: (t in b.graphs) && (p in view(b.graphs[t].roots.m)) && 0 <= j && j < view(b.graphs[t].roots.m)[p].rootNode.clen ==> callsOn("Node.Reopen", view(b.graphs[t].roots.m)[p].rootNode.chain[j].node) > old(callsOn("Node.Reopen", view(b.graphs[t].roots.m)[p].rootNode.chain[j].node)))
+//@   ensures C20/nil-means-every-node-reopened: err == nil ==> (forall t EventType, p PipelineID, j int :: (t in b.graphs) && (p in view(b.graphs[t].roots.m)) && 0 <= j && j < view(b.graphs[t].roots.m)[p].rootNode.clen ==> newCallsOn("Node.Reopen", view(b.graphs[t].roots.m)[p].rootNode.chain[j].node) > 0)
 //@   ensures C20/failure-is-reported-and-carried: forall i int :: old(ev_n) <= i && i < ev_n && ev_kind(i) == "call:eventlogger.Node.Reopen" && ev_a(i, 5) != 0 ==> err != nil && carries(err, ev_a(i, 5), ev_a(i, 6))
 //@   ensures unlocked: noLocksHeld()
 //@   ensures C04/single-critical-section: acquisitions(b.lock) <= old(acquisitions(b.lock)) + 1
-//@   loop 1 invariant forall t EventType, p PipelineID, j int :: visited(t) && (p in view(b.graphs[t].roots.m)) && 0 <= j && j < view(b.graphs[t].roots.m)[p].rootNode.clen ==> callsOn("Node.Reopen", view(b.graphs[t].roots.m)[p].rootNode.chain[j].node) > old(callsOn("Node.Reopen", view(b.graphs[t].roots.m)[p].rootNode.chain[j].node))
-//@   loop 1 invariant forall i int :: old(ev_n) <= i && i < ev_n && ev_kind(i) == "call:eventlogger.Node.Reopen" ==> ev_a(i, 5) == 0
+//@   ghost at loop 1 backedge havoc Broker.gpos, Broker.gtyp: (forall t EventType :: ((t in b.graphs) && b.graphs[t] == g ==> b.gpos[t] == len(graphs) - 1 && b.gtyp[len(graphs) - 1] == t) && (!((t in b.graphs) && b.graphs[t] == g) ==> b.gpos[t] == old(b.gpos[t]))) && (forall a int :: a != len(graphs) - 1 ==> b.gtyp[a] == old(b.gtyp[a]))
+//@   loop 1 invariant held(b.lock) == 1 && ev_n == old(ev_n)
+//@   loop 1 invariant L1a: forall t EventType :: visited(t) ==> 0 <= b.gpos[t] && b.gpos[t] < len(graphs) && graphs[b.gpos[t]] == b.graphs[t]
+//@   loop 1 invariant L1b: forall a int :: 0 <= a && a < len(graphs) ==> (b.gtyp[a] in b.graphs) && graphs[a] == b.graphs[b.gtyp[a]]
+//@   loop 2 invariant noLocksHeld()
+//@   loop 2 invariant L2a: forall t EventType :: (t in b.graphs) ==> 0 <= b.gpos[t] && b.gpos[t] < len(graphs) && graphs[b.gpos[t]] == b.graphs[t]
+//@   loop 2 invariant L2b: forall a int :: 0 <= a && a < len(graphs) ==> (b.gtyp[a] in b.graphs) && graphs[a] == b.graphs[b.gtyp[a]]
+//@   loop 2 invariant L2c: forall a int, p PipelineID, j int :: 0 <= a && a <= rangeindex && (p in view(graphs[a].roots.m)) && 0 <= j && j < view(graphs[a].roots.m)[p].rootNode.clen ==> newCallsOn("Node.Reopen", view(graphs[a].roots.m)[p].rootNode.chain[j].node) > 0
+//@   loop 2 invariant forall i int :: old(ev_n) <= i && i < ev_n && ev_kind(i) == "call:eventlogger.Node.Reopen" ==> ev_a(i, 5) == 0
